@@ -32,6 +32,11 @@ type mixStruct struct {
 	C *pubStruct
 	D interface{}
 }
+type numStruct struct {
+	N int
+	F float64
+	S string
+}
 type ifaceStruct struct {
 	X interface{}
 	Y interface{}
@@ -219,6 +224,8 @@ const (
 	vkMapMyUint
 	vkMapInt64Extreme
 	vkMapIntNeg
+	vkSliceIntFloatStr // int, then float, then string in one container
+	vkStructIntFloatStr
 	vkEnumStringer // Stringer indexing a table: out-of-range values panic with a runtime error that embeds the value
 	vkNumPrinter   // number of fmt-compatible kinds
 )
@@ -239,6 +246,7 @@ const (
 	vkStructSafe
 	vkSliceRedSafe  // pre-redactable followed by safe siblings
 	vkStructRedSafe // struct: RedactableBytes field followed by a Safe() field
+	vkNestedSF      // SafeFormatter that calls Printf / Print on its SafePrinter
 	vkNumRedact
 )
 
@@ -364,6 +372,10 @@ func mkValue(kind int, s string, i int) interface{} {
 		return map[int64]string{-9223372036854775808: s, 1: "x", 9223372036854775807: "z"}
 	case vkMapIntNeg:
 		return map[int]int{-(1 << 62) - (1 << 61): 1, 1 << 62: 2, i: 3}
+	case vkSliceIntFloatStr:
+		return []interface{}{i, 2.5, s, complex(1, 2)}
+	case vkStructIntFloatStr:
+		return numStruct{i, 2.5, s}
 	case vkEnumStringer:
 		return enumStr(i)
 	case vkMapMyUint:
@@ -395,6 +407,8 @@ func mkValue(kind int, s string, i int) interface{} {
 		return ifaceStruct{redact.Safe(pubS), s}
 	case vkSliceRedSafe:
 		return []interface{}{s, redact.RedactableString("r‹e›"), redact.SafeString("sib"), safeInt(3), redact.Safe("w")}
+	case vkNestedSF:
+		return nestedSF{s}
 	case vkStructRedSafe:
 		return ifaceStruct{redact.RedactableBytes("b‹e›"), redact.Safe(pubS)}
 	}
@@ -406,4 +420,6 @@ var directives = []string{
 	"%v", "%+v", "%#v", "%s", "%q", "%x", "%X", "%d", "%c", "%U", "%t", "%e", "%g", "%T", "%o", "%b",
 	"%5v", "%-5v|", "%05v", "%.2v", "%7.3v", "% x", "%#x", "%+d", "% d", "%+q", "%#q", "%8.3f", "%-8q|", "%08d", "%x|%X", "%3c|", "%#o", "%#U",
 	"%!", "%z", "%[1]v", "%[2]v", "%[1]*v", "%.*v", "%*v", "%v %v", "%", "%-", "%.", "%[", "%[x]v", "%[0]v", "%é", "%\xe2v",
+	// appended later (indices 50..): '0' with width and precision
+	"%08.3v", "%06.2v", "%07.0v", "%+08.2v",
 }
